@@ -286,7 +286,17 @@ class OpsMixin:
                 return VInt(-self.intt(v))
         if isinstance(node.op, ast.UAdd) and isinstance(v, (VInt, VReal)):
             return v
+        if isinstance(v, VAny) and self.opt("opaque_any_methods") == "deterministic":
+            iv = self.inject(v)
+            ok = z3.Function(f"any_{type(node.op).__name__}#ok", AnySort, z3.BoolSort())(iv)
+            if not self.run.decide(ok, f"{type(node.op).__name__} of an opaque operand succeeds"):
+                raise E.PyExc(VExc("Exception", arbitrary=True), "opaque arithmetic")
+            return VAny(z3.Function(f"any_{type(node.op).__name__}", AnySort, AnySort)(iv), "pyvalue")
         raise E.Unsupported(f"unary {type(node.op).__name__} on {v!r}")
+
+    def unary(self, op, v):
+        node = ast.UnaryOp(op=op, operand=ast.Name(id="__u", ctx=ast.Load()))
+        return self.e_UnaryOp(node, E.Frame("<unary>", None, {"__u": v}, None, "unary"))
 
     def e_BinOp(self, node, frame):
         a = self.eval(node.left, frame)
@@ -435,6 +445,13 @@ class OpsMixin:
         if isinstance(op, (ast.BitOr, ast.BitAnd)) and isinstance(a, VAny) and isinstance(b, VAny):
             return VAny(z3.Function(f"any_{type(op).__name__}", AnySort, AnySort, AnySort)(a.t, b.t), a.tag)     # flag combination
         if self.opt("opaque_any_methods"):
+            if self.opt("opaque_any_methods") == "deterministic":
+                # Python's operators are (partial) FUNCTIONS of their operands: whether the operation raises is a predicate of the operands too
+                ia, ib = self.inject(a), self.inject(b)
+                ok = z3.Function(f"any_{type(op).__name__}#ok", AnySort, AnySort, z3.BoolSort())(ia, ib)
+                if not self.run.decide(ok, f"{type(op).__name__} of opaque operands succeeds"):
+                    raise E.PyExc(VExc("Exception", arbitrary=True), "opaque arithmetic")
+                return VAny(z3.Function(f"any_{type(op).__name__}", AnySort, AnySort, AnySort)(ia, ib), "pyvalue")
             if self.run.choose([("ok", None), ("TypeError", None)], "opaque arithmetic"):
                 raise E.PyExc(VExc("TypeError"), "opaque arithmetic")
             f = z3.Function(f"any_{type(op).__name__}", AnySort, AnySort, AnySort)
@@ -500,6 +517,12 @@ class OpsMixin:
             raise E.PyExc(VExc("TypeError"), "enum ordering")
         if isinstance(a, VNone) or isinstance(b, VNone):
             raise E.PyExc(VExc("TypeError"), "ordering with None")
+        if (isinstance(a, VAny) or isinstance(b, VAny)) and self.opt("opaque_any_methods") == "deterministic":
+            ia, ib = self.inject(a), self.inject(b)
+            ok = z3.Function(f"any_cmp_{type(op).__name__}#ok", AnySort, AnySort, z3.BoolSort())(ia, ib)
+            if not self.run.decide(ok, f"{type(op).__name__} of opaque operands succeeds"):
+                raise E.PyExc(VExc("Exception", arbitrary=True), "opaque comparison")
+            return z3.Function(f"any_cmp_{type(op).__name__}", AnySort, AnySort, z3.BoolSort())(ia, ib)
         if (isinstance(a, VAny) or isinstance(b, VAny)) and self.opt("opaque_any_methods"):
             if self.run.choose([("ok", None), ("TypeError", None)], "opaque comparison"):
                 raise E.PyExc(VExc("TypeError"), "opaque comparison")
